@@ -267,7 +267,7 @@ def _sample_worker(job):
         for k, d in check_case(c):
             s.fail(k, c, d)
 
-    H.hyp_run(strat, body, n, seed)
+    H.hyp_run(strat, body, n, seed, stats=s)
     return s
 
 
